@@ -8,8 +8,14 @@ package c2
 // Session.frags, cluster fields.
 
 import (
+	"context"
+	"fmt"
 	"sort"
+	"sync"
 
+	"github.com/PurpleSec/logx"
+	"github.com/iDigitalFlame/xmt/c2/cfg"
+	"github.com/iDigitalFlame/xmt/c2/cout"
 	"github.com/iDigitalFlame/xmt/com"
 	"github.com/iDigitalFlame/xmt/device"
 )
@@ -60,7 +66,10 @@ func (v *VerifC02Session) DrainSend() []*com.Packet {
 	var r []*com.Packet
 	for {
 		select {
-		case p := <-v.S.send:
+		case p, ok := <-v.S.send:
+			if !ok { // closed by shutdown() once listen() has ended
+				return r
+			}
 			r = append(r, p)
 		default:
 			return r
@@ -104,3 +113,55 @@ func (v *VerifC02Session) Frags() []VerifC02Cluster {
 	sort.Slice(r, func(i, j int) bool { return r[i].Group < r[j].Group })
 	return r
 }
+
+// ---- the REAL (*Session).listen loop on a bare client Session -------------------------------
+
+// VerifC02NewClient builds the client Session value the listen loop needs (no network): wake and
+// done channels, a NOP log, sleep 0 (wait() returns at once).  The Profile is given to Listen.
+func VerifC02NewClient(id device.ID) *VerifC02Session {
+	v := VerifC02NewSession(id, false)
+	v.S.wake, v.S.ch = make(chan struct{}, 1), make(chan struct{})
+	v.S.log = cout.New(logx.NOP)
+	return v
+}
+
+// VerifC02Loop is a handle on a running (*Session).listen goroutine.
+type VerifC02Loop struct {
+	Done chan struct{} // closed when listen() has returned
+	lock sync.Mutex
+	pan  string
+}
+
+// Panic is the panic that ended listen(), if any.
+func (l *VerifC02Loop) Panic() string {
+	l.lock.Lock()
+	defer l.lock.Unlock()
+	return l.pan
+}
+
+// Listen starts the real listen loop with the given Profile: every pass of the loop calls
+// p.Switch and p.Connect, which is where the harness scripts refusals and connections.
+func (v *VerifC02Session) Listen(p cfg.Profile) *VerifC02Loop {
+	l := &VerifC02Loop{Done: make(chan struct{})}
+	v.S.p, v.S.ctx = p, context.Background()
+	go func() {
+		defer func() {
+			if x := recover(); x != nil {
+				l.lock.Lock()
+				l.pan = fmt.Sprint(x)
+				l.lock.Unlock()
+			}
+			close(l.Done)
+		}()
+		v.S.listen()
+	}()
+	return l
+}
+
+// Errors is the consecutive-error counter of listen().  Only meaningful while the loop is parked
+// inside the Profile's Connect.
+func (v *VerifC02Session) Errors() int { return int(v.S.errors) }
+
+// QueueFiller gives the client something to send in the next exchange, so that next() takes it from
+// the queue instead of drawing a re-key announcement at random.
+func (v *VerifC02Session) QueueFiller() { v.S.send <- &com.Packet{ID: 0x10, Device: v.S.ID} }
